@@ -713,7 +713,7 @@ class LRItem:
         """
 
         if self.position < len(self.production.rhs):
-            return LRItem(self.production, self.position + 1, self.follow)
+            return LRItem(self.production, self.position + 1, set(self.follow))
 
     @property
     def symbol_at_position(self):
